@@ -201,7 +201,28 @@ func c11Compare(w *vfWorld, a, b *Router, m *vfModel, res *vfResult, ctx string,
 		}
 	}
 	if d := vfDiffMaps(sa, sb); d != "" {
-		res.failf("restart-diff", "%s: original (want) and restored (got) proxies differ:\n%s", ctx, d)
+		sig := "restart-diff"
+		// the listed finding: rollout targets keep the target-level options they were created with, a restart
+		// re-creates them with the service's current ones - visible only on the rollout side of those services
+		if stale := m.staleRolloutOptions(); len(stale) > 0 {
+			only := true
+			for k := range sa {
+				if sa[k] == sb[k] {
+					continue
+				}
+				ok := false
+				for _, n := range stale {
+					if strings.HasPrefix(k, "cookie/"+n+"/") {
+						ok = true
+					}
+				}
+				only = only && ok
+			}
+			if only {
+				sig = "rollout-targets-keep-old-options"
+			}
+		}
+		res.failf(sig, "%s: original (want) and restored (got) proxies differ:\n%s", ctx, d)
 		return false
 	}
 	return true
@@ -267,6 +288,7 @@ func c11Run(t *testing.T, p c11Plan) (res vfResult) {
 			helds = append(helds, held{name, w.goDo(a, rq.build()), w.goDo(b, rq.build())})
 		}
 		synctest.Wait() // the held requests are parked at the pause gate before the continuation starts
+		snapshots := []*vfModel{m.clone()} // the configurations in force while the held requests wait
 		for i, c := range p.H2 {
 			ctx := fmt.Sprintf("H2 step %d %s", i, c)
 			want := m.apply(c)
@@ -293,6 +315,7 @@ func c11Run(t *testing.T, p c11Plan) (res vfResult) {
 				return
 			}
 			synctest.Wait()
+			snapshots = append(snapshots, m.clone())
 			if !c11Compare(w, a, b, m, &res, "after "+ctx, i == len(p.H2)-1) {
 				return
 			}
@@ -307,15 +330,21 @@ func c11Run(t *testing.T, p c11Plan) (res vfResult) {
 			}
 			ra, rb := hd.pa.resp, hd.pb.resp
 			sa, sb := "", ""
-			if ra.Target != "" {
-				sa = c11SlotOf(m, hd.name, ra.Target)
-			}
-			if rb.Target != "" {
-				sb = c11SlotOf(m, hd.name, rb.Target)
-			}
-			if sa != sb {
-				res.failf("held-diff", "request held by paused service %s: original %v (%s), restored %v (%s)", hd.name, ra, sa, rb, sb)
-				return
+			if ra.Target != "" || rb.Target != "" {
+				// rotation position is free: both must have been served by the same slot of the service as it was at
+				// some moment of the continuation
+				same := false
+				for _, snap := range snapshots {
+					x, y := c11SlotOf(snap, hd.name, ra.Target), c11SlotOf(snap, hd.name, rb.Target)
+					if x == y && !strings.Contains(x, "FOREIGN") && !strings.HasPrefix(x, "?") {
+						same, sa, sb = true, x, y
+					}
+				}
+				if !same {
+					sa, sb = c11SlotOf(snapshots[0], hd.name, ra.Target), c11SlotOf(snapshots[0], hd.name, rb.Target)
+					res.failf("held-diff", "request held by paused service %s: original %v (%s), restored %v (%s): not the same slot at any moment", hd.name, ra, sa, rb, sb)
+					return
+				}
 			}
 			if ra.Status != rb.Status || ra.End != rb.End || ra.Panicked != rb.Panicked {
 				res.failf("held-diff", "request held by paused service %s: original %v (%s), restored %v (%s)", hd.name, ra, sa, rb, sb)
